@@ -84,6 +84,14 @@ class Fn:
         self.rec = None     # (own name, recursion parameter, predecessor variable) while translating a recursive nested def
         self.ciph = {}      # cipher objects: name -> (ks var, mode, iv term)
         self.ctx = {}       # live encryptor / decryptor contexts: name -> dict(ks, mode, dir, st)
+        # names that may be bound to an object the caller still holds (parameters and plain copies of them):
+        # updating one in place (`x += …`, `x[i] = …`) would change the caller's bytearray, which the pure
+        # reading of assignment cannot express, so it is refused
+        self.shared = {p.arg for p in fn.args.args}
+
+    def no_inplace(self, name, what):
+        if name in self.shared:
+            raise Unsupported(f"in-place update `{what}` of `{name}`, which may be an object the caller holds")
 
     def fresh(self):
         self.tmp += 1
@@ -435,6 +443,8 @@ class Fn:
                 out.append(f"{ind}throw {self.exc_class(st)}")
                 return True
             if isinstance(st, ast.AugAssign) and isinstance(st.target, ast.Name):
+                if self.types.get(st.target.id) not in ("N", "I", "U8"):
+                    self.no_inplace(st.target.id, ast.unparse(st))
                 fake = ast.BinOp(left=ast.Name(id=st.target.id, ctx=ast.Load()), op=st.op, right=st.value)
                 t, k = self.expr(fake, out, ind)
                 out.append(f"{ind}let {v(st.target.id)} : {LEAN_TY[k]} := {t}")
@@ -462,9 +472,14 @@ class Fn:
                     t, k = self.expr(st.value, out, ind)
                     out.append(f"{ind}let {v(tg.id)} : {LEAN_TY[k]} := {t}")
                     self.types[tg.id] = k
+                    if isinstance(st.value, ast.Name) and st.value.id in self.shared:
+                        self.shared.add(tg.id)
+                    else:
+                        self.shared.discard(tg.id)
                     i += 1; continue
                 if isinstance(tg, ast.Subscript) and isinstance(tg.value, ast.Name) and const_int(tg.slice) is not None \
                         and self.types.get(tg.value.id) == "B" and const_int(st.value) is not None:
+                    self.no_inplace(tg.value.id, ast.unparse(st))
                     out.append(f"{ind}let {v(tg.value.id)} : Bytes := {v(tg.value.id)}.set {const_int(tg.slice)} 0x{const_int(st.value):02X}")
                     i += 1; continue
                 raise Unsupported("assignment " + ast.unparse(st))
@@ -699,6 +714,7 @@ class Fn:
         if len(inner.body) != 1 or not isinstance(inner.body[0], ast.AugAssign):
             raise Unsupported("for loop body")
         aug = inner.body[0]
+        self.no_inplace(arr, ast.unparse(aug))
         if not (isinstance(aug.target, ast.Subscript) and ast.unparse(aug.target.value) == arr and ast.unparse(aug.target.slice) == iv_
                 and const_int(aug.value) is not None and isinstance(aug.op, (ast.BitXor, ast.BitOr, ast.BitAnd))):
             raise Unsupported("for loop update " + ast.unparse(aug))
